@@ -1,4 +1,98 @@
 import OsloModel.Proto
+import OsloModel.File
+open Oslo Oslo.File Oslo.Proto
 
--- stub: replaced by the real driver of this property group
-def main : IO Unit := Oslo.Proto.serve (fun _ => "bad-request")
+def showExc : Exc → String
+  | .osError none => "OSError:N"
+  | .osError (some e) => s!"OSError:{e}"
+  | .valueError => "ValueError"
+  | .other t => s!"Other:{t}"
+  | .fuelExhausted => "FuelExhausted"
+
+def parseExc (s : String) : Option Exc :=
+  match s.splitOn ":" with
+  | ["os", "N"] => some (.osError none)
+  | ["os", e] => e.toInt?.map (fun v => .osError (some v))
+  | ["val"] => some .valueError
+  | ["other", t] => t.toNat?.map .other
+  | _ => none
+
+/-- `ok` or an exception -/
+def parseOutcome (s : String) : Option (Except Exc Unit) :=
+  if s = "ok" then some (.ok ()) else (parseExc s).map .error
+
+def showRes : Except Exc Unit → String
+  | .ok () => "returned"
+  | .error e => "raised " ++ showExc e
+
+def parseBool (s : String) : Option Bool :=
+  if s = "1" then some true else if s = "0" then some false else none
+
+/-- N = None, D = the default of the signature, else an int -/
+def parseChunk (s : String) : Option (Option Int) :=
+  if s = "N" then some none
+  else if s = "D" then some (some Gen.defaultChunk)
+  else s.toInt?.map some
+
+/-- run-length encode (input newest-first; output oldest-first) -/
+def rle (revLens : List Nat) : List (Nat × Nat) :=
+  revLens.foldl (fun acc l =>
+    match acc with
+    | (v, c) :: rest => if v = l then (v, c + 1) :: rest else (l, 1) :: acc
+    | [] => [(l, 1)]) []
+
+def showRle (r : List (Nat × Nat)) : String :=
+  if r.isEmpty then "-" else String.intercalate "," (r.map fun (v, c) => s!"{v}x{c}")
+
+def parseState (s : String) : Option PathState :=
+  if s = "missing" then some .missing else if s = "dir" then some .dir
+  else if s = "file" then some .file else none
+
+def showState : PathState → String
+  | .missing => "missing" | .dir => "dir" | .file => "file"
+
+def handle : List String → String
+  | ["sum", algok, file, cs] =>
+    let content : Option (Option Bytes) := if file = "X" then some none else (unhex file).map some
+    match parseBool algok, content, parseChunk cs with
+    | some algok, some content, some cs =>
+      -- the hash object records the toy hash and the length of every chunk it is fed
+      let upd : Toy × List Nat → Bytes → Toy × List Nat :=
+        fun (t, ls) c => (toyUpdate t c, c.length :: ls)
+      match computeChecksum upd id (toyInit, []) algok content cs with
+      | .ok (t, ls) => s!"ok lens={showRle (rle ls)} toy={t.h}:{t.len}"
+      | .error e => "err " ++ showExc e
+    | _, _, _ => "bad-request"
+  | ["last", content, num, fault] =>
+    let fault : Option (Option Exc) := if fault = "-" then some none else (parseExc fault).map some
+    match unhex content, num.toInt?, fault with
+    | some content, some num, some fault =>
+      match lastBytes content num fault with
+      | .ok (data, unread) => s!"ok {hex data} {unread}"
+      | .error e => "err " ++ showExc e
+    | _, _, _ => "bad-request"
+  | ["ensure", outcome, isdir] =>
+    match parseOutcome outcome, parseBool isdir with
+    | some o, some d => showRes (ensureTree o d)
+    | _, _ => "bad-request"
+  | ["delete", outcome] =>
+    match parseOutcome outcome with
+    | some o => showRes (deleteIfExists o)
+    | none => "bad-request"
+  | ["fs_ensure", st] =>
+    match parseState st with
+    | some st =>
+      let (r1, s1) := ensureTreeFS st
+      let (r2, s2) := ensureTreeFS s1
+      s!"{showRes r1}|{showState s1}|{showRes r2}|{showState s2}"
+    | none => "bad-request"
+  | ["fs_delete", st] =>
+    match parseState st with
+    | some st =>
+      let (r1, s1) := deleteIfExistsFS st
+      let (r2, s2) := deleteIfExistsFS s1
+      s!"{showRes r1}|{showState s1}|{showRes r2}|{showState s2}"
+    | none => "bad-request"
+  | _ => "bad-request"
+
+def main : IO Unit := serve handle
